@@ -115,3 +115,15 @@ Theorem stale_attestation_not_voted_by_its_body : forall (g : gate) K s i v c a,
   votes_at (fst (attest_g g K s i v c)) (a_key a) = votes_at s (a_key a).
 Proof. exact stale_not_voted_by_own_body_lemma. Qed.
 Print Assumptions stale_attestation_not_voted_by_its_body.
+
+(** The exemption of Orchestrator / Metadata / EventNonce from the hash is sound only while they produce no effect:
+    on the tally path (TryAttestation and every keeper function it hands the claim to — also as an interface value —,
+    processAttestation, emitObservedEvent, the attestation handlers) every field read from a claim is hashed or part of
+    the store key, none of the exempted three is read there, and EventNonce is read on the submission path by nothing
+    but the claim's own ValidateBasic. *)
+Theorem exempted_fields_have_no_effect : forall ct, In ct G.claim_types ->
+  incl (G.tally_fields ct) (hashed_fields ct ++ G.key_fields ct) /\
+  ~ In "EventNonce"%string (G.submit_fields_nogate ct) /\
+  (forall f, In f (G.tally_fields ct) -> ~ In f excluded).
+Proof. exact tally_reads_only_hashed_lemma. Qed.
+Print Assumptions exempted_fields_have_no_effect.
